@@ -138,6 +138,17 @@ func genC18Layout(r *Rng, base string, allowNested bool) *c18Layout {
 			l.tag("absent-file")
 		}
 		l.Frames = append(l.Frames, f)
+		// now and then a file of the same directory that is missing locally
+		// (generated code that is not checked in) and sorts before its sibling
+		if exists && kind != "gomod" && kind != "gorun" && kind != "testmain" && r.Chance(1, 4) {
+			d := ""
+			if i := strings.LastIndexByte(rel, '/'); i >= 0 {
+				d = rel[:i+1]
+			}
+			g := c18Frame{Remote: root.Remote + sep + d + "AAA_generated.pb.go", Kind: kind, Root: root, Sep: sep, Rel: d + "AAA_generated.pb.go", Exists: false, Pkg: pkg, Name: "gen"}
+			l.Frames = append(l.Frames, g)
+			l.tag("absent-sibling-first")
+		}
 	}
 	// GOROOT
 	switch r.Intn(8) {
